@@ -2,6 +2,7 @@ pub mod ast;
 pub mod fmt;
 pub mod gen;
 pub mod interp;
+pub mod plant;
 pub mod print;
 pub mod shrink;
 pub mod walk;
